@@ -4,7 +4,7 @@
    file of its own so that coq/C07, which imports C06.Properties read-only, is not rebuilt, and so that the two files'
    Print Assumptions runs proceed in parallel. *)
 From Coq Require Import ZArith.
-From C06 Require Import Model ModelNative ProofsBase ProofsSigned ProofsNative ProofsNative2 ProofsNative3 ProofsNativeEx ModelCount ProofsCount ProofsDomain.
+From C06 Require Import Model ModelNative ProofsBase ProofsSigned ProofsNative ProofsNative2 ProofsNative3 ProofsNativeEx ModelCount ProofsCount ProofsDomain ModelAudit ProofsAudit ProofsAudit2 ProofsExamples.
 Local Open Scope Z_scope.
 
 Theorem C06_compare_native_exact : Cmp_native_exact. Proof. exact cmp_native_exact. Qed.
@@ -49,3 +49,16 @@ Theorem C06_addmul_word_exact : Addmul_word_exact.  Proof. exact addmul_word_exa
 Print Assumptions C06_addmul_word_exact.
 Theorem C06_signed_div_r_documented_domain : Sdiv_r_documented_domain. Proof. exact sdiv_r_documented_domain. Qed.
 Print Assumptions C06_signed_div_r_documented_domain.
+(* ---- phase 4 (audit response): ModelAudit.v ---- *)
+Theorem C06_bit_fiddling_exact : Bit_fiddling_exact. Proof. exact bit_fiddling_exact. Qed.
+Print Assumptions C06_bit_fiddling_exact.
+Theorem C06_exp_scan_exact : Exp_scan_exact.        Proof. exact exp_scan_exact. Qed.
+Print Assumptions C06_exp_scan_exact.
+Theorem C06_normalization_scan_exact : Norm_scan_exact. Proof. exact norm_scan_exact. Qed.
+Print Assumptions C06_normalization_scan_exact.
+Theorem C06_inverse_modulo_documented_exact : Inv_mod_doc_exact. Proof. exact inv_mod_doc_exact. Qed.
+Print Assumptions C06_inverse_modulo_documented_exact.
+Theorem C06_signed_inverse_modulo_documented_exact : Sinv_mod_doc_exact. Proof. exact sinv_mod_doc_exact. Qed.
+Print Assumptions C06_signed_inverse_modulo_documented_exact.
+Theorem C06_div_3_2_trace_exact : Div32_trace_exact. Proof. exact div32_trace_exact. Qed.
+Print Assumptions C06_div_3_2_trace_exact.
